@@ -47,8 +47,12 @@ Fixpoint dedupN (seen l : list N) : list N :=
   | x :: r => if existsb (N.eqb x) seen then dedupN seen r else x :: dedupN (x :: seen) r
   end.
 
+(** a converted form: the original itself when the text is unchanged, otherwise a
+    ShadowCandidate (marked by c_uniq = 1).  Candidate::GetGenuineCandidate unwraps one
+    level only, so the shadow of a shadow is no longer seen as a Phrase (type 5). *)
 Definition with_text (c : cand) (t : text) : cand :=
-  mkCand t (c_comment c) (c_type c) (c_start c) (c_end c) (c_quality c) (c_uniq c).
+  if text_eqb t (c_text c) then c else
+  mkCand t (c_comment c) (if Nat.eqb (c_uniq c) 0 then c_type c else 5) (c_start c) (c_end c) (c_quality c) 1.
 
 Definition default_of (d : sdict) (k : N) : N :=
   match dict_find d k with Some (v :: _) => v | _ => k end.
